@@ -52,7 +52,7 @@ def main():
             result['demo_patched_exit'] = d1.returncode
             result['demo_patched_out'] = d1.stdout.strip()[-300:]
         for c in checks:
-            env = dict(os.environ, VERIF_REPO=wt, VERIF_EVIDENCE_DIR=ev)
+            env = dict(os.environ, VERIF_REPO=wt, VERIF_EVIDENCE_DIR=ev, VERIF_REPLAY_DIR=ev)
             r = sh('bin/check %s --tier %s' % (c, tier), cwd=VERIF, env=env)
             viol = [l for l in r.stdout.splitlines() if l.startswith('VIOLATION')]
             first = [l for l in r.stdout.splitlines() if l.startswith('violation:')][:2]
